@@ -1304,6 +1304,12 @@ where
                 })
             })
             .and_then(|size: usize| {
+                if size == 0 {
+                    // A zero-length element is a valid empty value, not a null. `read_n_bytes`
+                    // reports an exhausted slice as `None`, which would turn an empty element
+                    // located at the very end of the vector into a null.
+                    return Ok(Some(FrameSlice::new_empty()));
+                }
                 self.slice.read_n_bytes(size).map_err(|err| {
                     mk_deser_err::<Self>(
                         self.collection_type,
